@@ -472,6 +472,16 @@ PROPERTIES["C24"]["rules"] += [("FMTTAB", lambda ctx: rule_fmttab(ctx.lib, ctx.n
 PROPERTIES["C24"]["explanation"] += " (FMTTAB) Writer/reader table agreement: every literal date-time string passed to datetime() in an @example or a library body (and the templates today()/date() build) is accepted by one of the strptime calls of datetime::parse_datetime, whose format sets are computed from the const table, the for-loop pattern and the lowered format! template; ISO 8601 / RFC 2822 strings are left undecided."
 PROPERTIES["C24"]["assumptions"] = list(PROPERTIES["C24"].get("assumptions", [])) + ["the regular-expression model of jiff's strptime directives (%Y %m %d %H %I %M %S %p %.f %z, whitespace = \\s*) in engine/rules/fmttab.py; unknown directives make a site opaque (nothing is reported against it)"]
 
+from guard import rule_guard  # noqa: E402
+
+PROPERTIES["C13"]["rules"] += [("GUARD", lambda ctx: rule_guard(ctx.lib))]
+PROPERTIES["C13"]["explanation"] += " (GUARD) PrefixParser::parse returns a prefixed unit only under the conjunction of the unit's accepts_prefix flag for that spelling kind, the pairing of the returned prefix's kind with metric_prefixes/binary_prefixes, and input == spelling ++ returned unit name, all read from one unit record; the unprefixed return is an exact lookup."
+
+from prec import rule_oprt  # noqa: E402
+
+PROPERTIES["C15"]["rules"] += [("OPRT", lambda ctx: rule_oprt(ctx.lib))]
+PROPERTIES["C15"]["explanation"] += " (OPRT) Operator-spelling round trip: each of the 14 BinaryOperator spellings the printer emits is produced by the tokenizer as one token kind, which the parser's level functions map back to the same operator."
+
 NOT_APPLICABLE = {
     "C03": "numerical agreement of conversion factors over 500 units is a statement about run-time values; no structural clause is a necessary condition that is not already covered under C04/C11/C12 (static analysis cannot bound the arithmetic)",
     "C14": "a statement about the decimal rendering of every f64 under every format setting; the code delegates to pretty_dtoa/num_format and no structural clause of Number::pretty_print_with_dtoa_config can be decided without evaluating it",
